@@ -14,6 +14,9 @@ use rand::Rng;
 
 const DEFAULT_MAX_HEIGHT: usize = 12;
 
+#[cfg(rescrv_blue_verif)]
+pub mod verif;
+
 /////////////////////////////////////////////// Node ///////////////////////////////////////////////
 
 struct Node<K, V, const MAX_HEIGHT: usize = DEFAULT_MAX_HEIGHT> {
@@ -67,6 +70,8 @@ mod node_ptr {
     fn deref<'a, K, V, const MAX_HEIGHT: usize>(
         ptr: *mut Node<K, V, MAX_HEIGHT>,
     ) -> &'a Node<K, V, MAX_HEIGHT> {
+        #[cfg(rescrv_blue_verif)]
+        crate::verif::reg_deref(ptr as usize);
         unsafe { &*ptr }
     }
 
@@ -122,14 +127,38 @@ impl<K: Eq + Ord + Default, V: Default, const MAX_HEIGHT: usize> SkipList<K, V, 
         assert!(existing.is_null() || node_ptr::key(existing) != &key);
         let height = Self::random_height();
         let x = Self::new_node(key, value, height);
+        #[cfg(rescrv_blue_verif)]
+        crate::verif::reg_alloc(x as usize);
+        #[cfg(rescrv_blue_verif)]
+        crate::verif::emit("alloc", [x as u64, height as u64, 0, 0, 0]);
         for idx in 0..height {
             'lockfree_looping: loop {
+                #[cfg(rescrv_blue_verif)]
+                crate::verif::point();
                 node_ptr::set_next(x, idx, obs[idx]);
+                #[cfg(rescrv_blue_verif)]
+                crate::verif::emit("store", [x as u64, idx as u64, obs[idx] as u64, 0, 0]);
+                #[cfg(rescrv_blue_verif)]
+                crate::verif::point();
                 if node_ptr::cas_next(prev[idx], idx, obs[idx], x) {
+                    #[cfg(rescrv_blue_verif)]
+                    crate::verif::emit(
+                        "cas",
+                        [prev[idx] as u64, idx as u64, obs[idx] as u64, x as u64, 1],
+                    );
                     break 'lockfree_looping;
                 }
+                #[cfg(rescrv_blue_verif)]
+                crate::verif::emit(
+                    "cas",
+                    [prev[idx] as u64, idx as u64, obs[idx] as u64, x as u64, 0],
+                );
                 'advancing: loop {
+                    #[cfg(rescrv_blue_verif)]
+                    crate::verif::point();
                     let next = node_ptr::get_next(prev[idx], idx);
+                    #[cfg(rescrv_blue_verif)]
+                    crate::verif::emit("load", [prev[idx] as u64, idx as u64, next as u64, 0, 0]);
                     if Self::key_is_after_node(node_ptr::key(x), next) {
                         prev[idx] = next;
                     } else {
@@ -166,6 +195,10 @@ impl<K: Eq + Ord + Default, V: Default, const MAX_HEIGHT: usize> SkipList<K, V, 
 
     fn random_height() -> usize {
         const BRANCHING: u8 = 4;
+        #[cfg(rescrv_blue_verif)]
+        if let Some(height) = crate::verif::forced_height() {
+            return height.clamp(1, MAX_HEIGHT);
+        }
         let mut height = 1usize;
         let mut rng = rand::thread_rng();
         while height < MAX_HEIGHT && rng.r#gen::<u8>() % BRANCHING == 0 {
@@ -187,7 +220,11 @@ impl<K: Eq + Ord + Default, V: Default, const MAX_HEIGHT: usize> SkipList<K, V, 
         let mut x = head.load(Ordering::Acquire);
         let mut level = MAX_HEIGHT - 1;
         loop {
+            #[cfg(rescrv_blue_verif)]
+            crate::verif::point();
             let next = node_ptr::get_next(x, level);
+            #[cfg(rescrv_blue_verif)]
+            crate::verif::emit("load", [x as u64, level as u64, next as u64, 0, 0]);
             if Self::key_is_after_node(key, next) {
                 x = next;
             } else if level == 0 {
@@ -217,7 +254,11 @@ impl<K: Eq + Ord + Default, V: Default, const MAX_HEIGHT: usize> SkipList<K, V, 
             obs.push(std::ptr::null_mut());
         }
         let found = loop {
+            #[cfg(rescrv_blue_verif)]
+            crate::verif::point();
             let next = node_ptr::get_next(x, level);
+            #[cfg(rescrv_blue_verif)]
+            crate::verif::emit("load", [x as u64, level as u64, next as u64, 0, 0]);
             if Self::key_is_after_node(key, next) {
                 x = next;
             } else {
@@ -241,7 +282,11 @@ impl<K: Eq + Ord + Default, V: Default, const MAX_HEIGHT: usize> SkipList<K, V, 
         let mut level = MAX_HEIGHT - 1;
         loop {
             assert!(std::ptr::eq(x, head.load(Ordering::Relaxed)) || node_ptr::key(x) < key);
+            #[cfg(rescrv_blue_verif)]
+            crate::verif::point();
             let next = node_ptr::get_next(x, level);
+            #[cfg(rescrv_blue_verif)]
+            crate::verif::emit("load", [x as u64, level as u64, next as u64, 0, 0]);
             if next.is_null() || node_ptr::key(next) >= key {
                 if level == 0 {
                     return x;
@@ -258,7 +303,11 @@ impl<K: Eq + Ord + Default, V: Default, const MAX_HEIGHT: usize> SkipList<K, V, 
         let mut x = head.load(Ordering::Acquire);
         let mut level = MAX_HEIGHT - 1;
         loop {
+            #[cfg(rescrv_blue_verif)]
+            crate::verif::point();
             let next = node_ptr::get_next(x, level);
+            #[cfg(rescrv_blue_verif)]
+            crate::verif::emit("load", [x as u64, level as u64, next as u64, 0, 0]);
             if next.is_null() {
                 if level == 0 {
                     return x;
@@ -272,11 +321,34 @@ impl<K: Eq + Ord + Default, V: Default, const MAX_HEIGHT: usize> SkipList<K, V, 
     }
 }
 
+#[cfg(rescrv_blue_verif)]
+impl<K: Eq + Ord + Default, V: Default, const MAX_HEIGHT: usize> SkipList<K, V, MAX_HEIGHT> {
+    /// The keys on the chain of every level, from the head (no events, no scheduling points).
+    pub fn verif_levels(&self) -> Vec<Vec<&K>> {
+        let head = self.head.load(Ordering::Acquire);
+        let mut levels = Vec::with_capacity(MAX_HEIGHT);
+        for level in 0..MAX_HEIGHT {
+            let mut keys = Vec::new();
+            let mut x = node_ptr::get_next(head, level);
+            while !x.is_null() {
+                keys.push(node_ptr::key(x));
+                x = node_ptr::get_next(x, level);
+            }
+            levels.push(keys);
+        }
+        levels
+    }
+}
+
 impl<K: Eq + Ord + Default, V: Default, const MAX_HEIGHT: usize> Default
     for SkipList<K, V, MAX_HEIGHT>
 {
     fn default() -> Self {
         let head = Self::new_node(K::default(), V::default(), MAX_HEIGHT);
+        #[cfg(rescrv_blue_verif)]
+        crate::verif::reg_alloc(head as usize);
+        #[cfg(rescrv_blue_verif)]
+        crate::verif::emit("head", [head as u64, MAX_HEIGHT as u64, 0, 0, 0]);
         for idx in 0..MAX_HEIGHT {
             node_ptr::set_next(head, idx, std::ptr::null_mut());
         }
@@ -291,6 +363,8 @@ impl<K, V, const MAX_HEIGHT: usize> Drop for SkipList<K, V, MAX_HEIGHT> {
         while !ptr.is_null() {
             let to_drop = ptr;
             ptr = node_ptr::get_next(ptr, 0);
+            #[cfg(rescrv_blue_verif)]
+            crate::verif::reg_free(to_drop as usize);
             drop(unsafe { Box::from_raw(to_drop) });
         }
     }
@@ -336,7 +410,13 @@ impl<K: Eq + Ord + Default, V: Default, const MAX_HEIGHT: usize>
     /// Advance forward in the skip list, to the next greater key.
     pub fn next(&mut self) {
         if !self.node.is_null() {
+            #[cfg(rescrv_blue_verif)]
+            let from = self.node;
+            #[cfg(rescrv_blue_verif)]
+            crate::verif::point();
             self.node = node_ptr::get_next(self.node, 0);
+            #[cfg(rescrv_blue_verif)]
+            crate::verif::emit("load", [from as u64, 0, self.node as u64, 0, 0]);
         }
     }
 
@@ -358,7 +438,14 @@ impl<K: Eq + Ord + Default, V: Default, const MAX_HEIGHT: usize>
     ///
     /// After this call the skiplist will not be valid.  Call next to get the next node.
     pub fn seek_to_first(&mut self) {
+        #[cfg(rescrv_blue_verif)]
+        crate::verif::point();
         self.node = node_ptr::get_next(self.head.load(Ordering::Acquire), 0);
+        #[cfg(rescrv_blue_verif)]
+        crate::verif::emit(
+            "load",
+            [self.head.load(Ordering::Acquire) as u64, 0, self.node as u64, 0, 0],
+        );
     }
 
     /// Seek to the empty end of the skiplist.
